@@ -46,6 +46,7 @@ sys.path.insert(0, os.path.dirname(os.path.dirname(os.path.abspath(__file__))))
 from bounded.common import parse_args, Report, jsonable           # noqa: E402
 from specs import stateful as S                                      # noqa: E402
 from specs import stateful_registry as REG                           # noqa: E402
+from specs import stateful_histories as HIST                         # noqa: E402
 
 WORKERS = 8
 SLOW_MS = 1.5       # uncached queries slower than this are evaluated in the final sweeps only
@@ -249,7 +250,47 @@ def engine_for(name, seed):
     return _ENGINES[key]
 
 
+def work_family(task):
+    """histories of one Surrogates / RecurrencePlot family (specs/stateful_histories.py)"""
+    _, name, seed, tier, runs = task
+    out = {"eval": 0, "fail": [], "skip": [], "cases": [], "samples": [], "name": name, "t": 0.0}
+    t0 = time.process_time()
+    try:
+        with S.Silence():
+            key = ("family", name, seed, tier)
+            if key not in _ENGINES:
+                _ENGINES[key] = HIST.family_by_name(name, seed, tier)
+            fam = _ENGINES[key]
+            for hist, mode in runs:
+                fam.run_history(tuple(hist), mode, out)
+    except Exception as e:                                          # noqa
+        out["skip"].append(f"{name}: HARNESS ERROR {type(e).__name__}: {e} :: "
+                           + traceback.format_exc()[-600:])
+    out["t"] = time.process_time() - t0
+    return out
+
+
+def family_tasks(tier, seed):
+    only = [x for x in os.environ.get("VERIF_SPECS", "").split(",") if x]
+    tasks = []
+    for c in HIST.FAMILIES:
+        if only and not any(c.name == o or c.name.startswith(o) for o in only):
+            continue
+        with S.Silence():
+            fam = c(seed, tier)
+        runs = [((), "every")]
+        for h in fam.plan():
+            if h:
+                runs += [(h, "every"), (h, "final")] if len(h) > 1 else [(h, "every")]
+        nchunk = max(1, min(16, len(runs) // 150))
+        for k in range(nchunk):
+            tasks.append(("family", c.name, seed, tier, runs[k::nchunk]))
+    return tasks
+
+
 def work(task):
+    if task[0] == "family":
+        return work_family(task)
     name, seed, hists, quarantine_idx = task
     out = {"eval": 0, "fail": [], "skip": [], "cases": [], "samples": [], "name": name, "t": 0.0}
     t0 = time.process_time()
@@ -305,6 +346,8 @@ def main():
             "every query call, queries that differ between two fresh objects are listed in `skipped`")
     probes = []
     for c in REG.ALL_SPECS:
+        if c.harness not in (None, "C01"):
+            continue
         for m in c(args.seed).quarantine:
             probes.append(f"{m.check} [{c.name}: {m.why}]")
     scope += ("  One-step probes kept out of the alphabets because they break coherence on their own "
@@ -314,7 +357,10 @@ def main():
     os.chdir(workdir)
     try:
         tasks = []
-        if replay is not None:
+        if replay is not None and "family" in replay:
+            tasks.append(("family", replay["family"], replay.get("seed", args.seed),
+                          replay.get("tier", args.tier), [(replay["history"], replay.get("mode", "every"))]))
+        elif replay is not None:
             spec = REG.spec_by_name(replay["spec"], replay.get("seed", args.seed))
             qidx = None
             hist = [replay["history"]]
@@ -324,14 +370,15 @@ def main():
                 hist = []
             tasks.append((replay["spec"], replay.get("seed", args.seed), hist, qidx))
         else:
-            for spec in REG.specs_for(args.tier, args.seed):
+            for spec in REG.specs_for(args.tier, args.seed, "C01"):
                 hists = plan(spec, args.tier, args.seed)
                 nchunk = max(1, min(12, len(hists) // 40))
                 for c in range(nchunk):
                     part = hists[c::nchunk]
                     qidx = list(range(len(spec.quarantine))) if (c == 0 and spec.quarantine) else None
                     tasks.append((spec.name, args.seed, part, qidx))
-            tasks.sort(key=lambda t: -len(t[2]))
+            tasks += family_tasks(args.tier, args.seed)
+            tasks.sort(key=lambda t: -(len(t[4]) // 3 if t[0] == "family" else len(t[2])))
         if len(tasks) == 1:
             results = [work(tasks[0])]
         else:
